@@ -37,3 +37,6 @@ claim("C13", "property-based testing (Hypothesis) against closed forms evaluated
 claim("C14", "property-based testing (Hypothesis); closed-form numpy oracle (linear) and two-resolution Gauss-Hermite oracle (feature models)",
       "integrate('log u(x)', factor) for all factor kinds (R_f in {1,R}); integrate_log_conditional(q) for an arbitrary Gaussian q and integrate_log_conditional_y (callable and evaluated; single or paired p_x) for linear/identity/NN-control classes (closed form) and RBF / squared-exponential feature models (y analytic given x, x by Gauss-Hermite with convergence certificate).",
       _NOTE, "DESIGN.md §2 C14")
+claim("C15", "differential property-based testing (Hypothesis): specialised class vs general class on generated operations",
+      "Rank-one/linear/constant factors vs ConjugateFactor (multiply/hadamard x update_full x cold/warm measures, log-factor integral, slice, product), diagonal measures/densities vs full ones (17 operations), diag / identity / identity-diag / NN-control conditionals vs ConditionalGaussianPDF built from the same parameters (12 operations, all batch combos): every public attribute present on both sides and evaluate_ln must agree; one-sided exceptions are violations.",
+      _NOTE, "DESIGN.md §2 C15")
